@@ -833,6 +833,43 @@ def iter_next(I, fr, it):
                         fr.mem = o.mem
                         out.append((gand(g, o.guard), o.value, IterV('map', [ni, f])))
         return out
+    if k == 'unique':
+        # itertools::unique: yields items not seen before (Eq + Hash of the item type; the crate's PartialEq is used)
+        out = []
+        inner, seen = it.fields
+        for g, x, ni in iter_next(I, fr, inner):
+            if x is None or isinstance(x, Outcome):
+                out.append((g, x, IterV('unique', [ni, seen]) if ni is not None else None))
+                continue
+            dup = False
+            for sx in seen.items:
+                e, p = _single_bool(I, fr, value_eq_call(I, fr, I.peel_all(sx, fr) if isinstance(sx, SRef) else sx, I.peel_all(x, fr) if isinstance(x, SRef) else x))
+                dup = gor(dup, e)
+            if not g_true(dup):
+                out.append((gand(g, gnot(dup)), x, IterV('unique', [ni, Seq(seen.items + (x,))])))
+            if not g_false(dup):
+                for g2, y, nj in iter_next(I, fr, IterV('unique', [ni, seen])):
+                    out.append((gand(g, dup, g2), y, nj))
+        return out
+    if k == 'filter_map':
+        out = []
+        inner, f = it.fields
+        for g, x, ni in iter_next(I, fr, inner):
+            if x is None or isinstance(x, Outcome):
+                out.append((g, x, IterV('filter_map', [ni, f]) if ni is not None else None))
+                continue
+            for o in call_mut_closure(I, fr, f, [x]):
+                if o.kind == 'panic':
+                    out.append((gand(g, o.guard), o, None))
+                    continue
+                opt = o.value
+                gg = gand(g, o.guard)
+                if 1 in opt.alts and not g_false(opt.alts[1][0]):
+                    out.append((gand(gg, opt.alts[1][0]), opt.alts[1][1][0], IterV('filter_map', [ni, f])))
+                if 0 in opt.alts and not g_false(opt.alts[0][0]):
+                    for g2, y, nj in iter_next(I, fr, IterV('filter_map', [ni, f])):
+                        out.append((gand(gg, opt.alts[0][0], g2), y, nj))
+        return out
     if k == 'filter':
         out = []
         for g, x, ni in iter_next(I, fr, it.fields[0]):
@@ -1711,8 +1748,52 @@ def m_cmp_max_min(I, fr, a, ck):
     return z3.If(lt, Y, X) if ck.method == 'max' else z3.If(lt, X, Y)
 
 
+def m_refcell_default(I, fr, a, ck):
+    """RefCell<T>::default(): RefCell::new(T::default()); T is a map / Vec / String / Rc<BDD> by the printed type"""
+    raw = ck.selfraw or ''
+    if 'HashMap' in raw or 'HashSet' in raw:
+        inner = MapV(())
+    elif 'Vec<' in raw:
+        inner = Seq(())
+    elif 'String' in raw:
+        inner = Str('')
+    else:
+        raise Unsupported('RefCell::default for ' + raw)
+    return m_refcell_new(I, fr, [inner], ck)
+
+
+def m_set_insert(I, fr, a, ck):
+    t = I.peel_all(a[0], fr)
+    if not isinstance(t, MapV):
+        raise EngineError('HashSet::insert on %s' % type(t).__name__)
+    old = map_get(I, fr, t, a[1])
+    if isinstance(old, Outs):
+        raise EngineError('panic in key comparison')
+    present = old.alts[1][0] if 1 in old.alts else False
+    write_mref(I, fr, a[0], MapV(t.items + ((True, a[1], UNIT),)))
+    return gnot(present)
+
+
+def m_set_contains(I, fr, a, ck):
+    t = I.peel_all(a[0], fr)
+    key = I.peel_all(a[1], fr)
+    if not isinstance(t, MapV):
+        raise EngineError('HashSet::contains on %s' % type(t).__name__)
+    r = map_get(I, fr, t, key)
+    if isinstance(r, Outs):
+        raise EngineError('panic in key comparison')
+    return r.alts[1][0] if 1 in r.alts else False
+
+
 def register_ints(M):
     A = M.add
+    A('HashSet', None, 'insert', m_set_insert)
+    A('HashSet', None, 'contains', m_set_contains)
+    A('HashSet', None, 'new', m_map_default)
+    A('HashSet', None, 'clear', m_map_clear)
+    A('RefCell', 'Default', 'default', m_refcell_default)
+    A('Vec', 'Default', 'default', m_vec_new)
+    A('String', 'Default', 'default', m_string_new)
     A(None, 'TryFrom', 'try_from', m_try_from)
     A(None, 'TryInto', 'try_into', m_try_from)
     A('Result', None, 'unwrap_or', m_result_unwrap_or)
